@@ -22,6 +22,8 @@ pub struct Args {
     pub out: String,
     pub tier: String,
     pub from: u64,
+    /// case indexes not to run (the driver resumes a shard after a crash without the case that crashed)
+    pub skip: Vec<u64>,
 }
 
 fn parse_args() -> Args {
@@ -41,6 +43,7 @@ fn parse_args() -> Args {
         out: String::new(),
         tier: "quick".into(),
         from: 0,
+        skip: vec![],
     };
     let mut i = 2;
     while i < v.len() {
@@ -55,6 +58,7 @@ fn parse_args() -> Args {
             "--out" => a.out = val,
             "--tier" => a.tier = val,
             "--from" => a.from = val.parse().unwrap_or(0),
+            "--skip" => a.skip = val.split(',').filter_map(|x| x.parse().ok()).collect(),
             other => {
                 eprintln!("unknown argument {}", other);
                 std::process::exit(2);
@@ -127,7 +131,32 @@ fn main() {
         Some(i) => vec![i],
         None => (args.from..args.cases).map(|k| args.shard + k * args.nshards).collect(),
     };
-    for idx in indices {
+    // checkpoints: what was observed so far, so that a later abort (out of memory, CPU budget) loses none of it.
+    // Written at most every 2 s and so that writing takes under a tenth of the run time.
+    let t_run = std::time::Instant::now();
+    let mut last_ckpt = std::time::Instant::now();
+    let mut ckpt_cost_ms: u128 = 0;
+    let first_k = args.from;
+    for (n_done, idx) in indices.into_iter().enumerate() {
+        if args.skip.contains(&idx) {
+            continue;
+        }
+        if !args.out.is_empty() && args.only.is_none() && n_done > 0 {
+            let since = last_ckpt.elapsed().as_millis();
+            if since > 2000 && since > 10 * ckpt_cost_ms {
+                let t0 = std::time::Instant::now();
+                let mut j = obs.to_json(&args.prop);
+                if let J::Obj(m) = &mut j {
+                    m.push(("next_k".to_string(), J::Int((first_k + n_done as u64) as i128)));
+                }
+                let tmp = format!("{}.ckpt.tmp", args.out);
+                if std::fs::write(&tmp, j.to_string()).is_ok() {
+                    let _ = std::fs::rename(&tmp, format!("{}.ckpt", args.out));
+                }
+                ckpt_cost_ms = t0.elapsed().as_millis();
+                last_ckpt = std::time::Instant::now();
+            }
+        }
         if let Some(f) = inflight.as_mut() {
             use std::os::unix::fs::FileExt;
             let _ = f.write_at(format!("{:<20}", idx).as_bytes(), 0);
@@ -185,5 +214,7 @@ fn main() {
         let mut f = std::fs::File::create(&args.out).expect("create out");
         f.write_all(js.as_bytes()).expect("write out");
         let _ = std::fs::remove_file(format!("{}.inflight", args.out));
+        let _ = std::fs::remove_file(format!("{}.ckpt", args.out));
     }
+    let _ = t_run;
 }
